@@ -90,7 +90,11 @@ def exec_batch(task, cd):
     cd.write({'in0.txt': '', 'in1.txt': text_of(1, nl, ctl), 'inN.txt': text_of(n, nl, ctl)})
     literal = task.get('source') == 'literal'      # the text held in memory (a string) instead of read from a file
 
+    program = task.get('source') == 'program'     # the text is the output of a program
+
     def src(name):
+        if program:
+            return '-stdout-from %% cat %s' % os.path.join(cd.home, 'in%s.txt' % name)
         if not literal:
             return '-contents-of -rel-home in%s.txt' % name
         t = text_of({'0': 0, '1': 1, 'N': n}[name], nl, ctl)
@@ -101,7 +105,9 @@ def exec_batch(task, cd):
         for name in ('0', '1', 'N'):
             if ctl:
                 f = f.replace("'^L[13579]$'", "'^L[13579]\\f$'")
-            lines.append('file o%d_%s.txt = %s -transformed-by filter %s' % (j, name, src(name), f))
+            # (the arguments of a program extend to the end of the line: the transformation goes on the next one)
+            lines.append('file o%d_%s.txt = %s%s-transformed-by filter %s'
+                         % (j, name, src(name), '\n    ' if program else ' ', f))
     cd.write({'c.case': '[setup]\n' + '\n'.join(lines) + '\n'})
     r = inproc.run_main(['--keep', 'c.case'], cd)
     res = dict(exit=r['exit'], exception=r['exception'], stderr=r['stderr'][:400], outs=None)
@@ -189,7 +195,8 @@ def check_items(ctx, items, n, label, per_case=8):
     for j in range(0, len(items), per_case):
         chunk = items[j:j + per_case]
         tasks.append(dict(n=n, filters=[it['arg'] for it in chunk], final_newline=(j // per_case) % 2 == 0,
-                          source='literal' if (j // per_case) % 4 >= 2 else 'file', ctl=(j // per_case) % 8 >= 4))
+                          source=('program' if (j // per_case) % 6 == 5 else
+                                  'literal' if (j // per_case) % 4 >= 2 else 'file'), ctl=(j // per_case) % 8 >= 4))
     with ctx.pool() as pool:
         obs = pool.map('harness.props.c13:exec_batch', tasks, deadline=120, chunk=4)
         # a batch that did not PASS as a whole is re-run item by item (so that one bad item does not hide the others)
